@@ -908,6 +908,13 @@ impl Actor {
                 Ok(())
             }
             ReplicaAction::DropReplica { reply } => send_reply_with(reply, self, |this| {
+                // Only the last handle may drop the replica. Refuse before closing: a refused
+                // drop must not release a handle that the caller still holds.
+                if let Ok(state) = this.states.get_mut(&namespace) {
+                    if state.handles > 1 {
+                        return Err(anyhow!("replica is not closed"));
+                    }
+                }
                 this.close(namespace);
                 this.store.remove_replica(&namespace)
             }),
